@@ -84,7 +84,7 @@ CLAIMED = {
          'DESIGN.md section 5 C15'),
  'C11': ('generated programs: a seeded emitter writes typed expression chains over static_number / static_integer leaves (plus fixed chains for multi-word storage and for the listed findings); rapidcheck draws leaf values from the declared range; each node is compared with an exact GMP replay of the chain',
          'node by node: exact value from exact children, the rounded rep quotient for /, the mode-rounded value at the destination resolution for narrowing construction; the CNL value must equal it, or the chain\'s overflow tag must signal (saturated: the bound on the side where the rounded result leaves the declared digits, and the chain continues from the bound; throwing / trapping: exception / abort, and evaluation stops there). A loud signal for a representable result is not counted as silently wrong',
-         'seven listed known findings (five inherited from the layers: C05 floor shift, C08 division bias, C09 conversion bias, shift by >= digits, multiply-predicate bias; two of C11's own: << accepts -(2^digits), static_integer built from a positive-exponent static_number is unchecked); chains use + - * / % unary -, <<, ++/--, comparisons, construction and assignment; Narrowest = long does not compile on the pinned tree and is not generated; chains differ per VERIF_SEED except the fixed ones',
+         'seven listed known findings (five inherited from the layers: C05 floor shift, C08 division bias, C09 conversion bias, shift by >= digits, multiply-predicate bias; two of its own: << accepts -(2^digits), static_integer built from a positive-exponent static_number is unchecked); chains use + - * / % unary -, <<, ++/--, comparisons, construction and assignment; Narrowest = long does not compile on the pinned tree and is not generated; chains differ per VERIF_SEED except the fixed ones',
          'DESIGN.md section 5 C11'),
 }
 
